@@ -38,8 +38,9 @@ RULE = ("param case = (library molecule, distortion seed, method, chunk of learn
         "force contribution > 1e-3 eV/A (force) or a converged Hessian (hessian) was judged; distinct by SHA-1 of the case")
 ASSUMPTIONS = ["float64 CPU, one torch thread", "scf_eps 1e-11 for every evaluation (AD and FD)",
                "orbital-energy / gap outputs judged only when neighbouring orbital energies are >= 0.15 eV apart",
-               "finite differences judged only when the two step sizes agree to 2e-3 relative (smooth branch; e.g. away "
-               "from the hpp >= 0.1 eV clamp)",
+               "finite differences judged only when the Richardson estimates from steps (h, h/2) and (h/2, h/4) agree to "
+               "0.2 x bound (smooth branch: away from the hpp >= 0.1 eV clamp and from the ~1e-7 eV steps the returned "
+               "energy has as a function of the orbital exponents)",
                "parameters whose table value is zero for an element are not perturbed for that element",
                "the deep-copy bypass replaces only copy.deepcopy((dict, alpha, chi)) by a shallow dict copy inside "
                "seqm.basics / seqm.Molecule, and only after the public path was observed to fail"]
@@ -47,7 +48,9 @@ REQUIRED_MONITORS = ["grad_compared", "grad_compared_density_outputs", "scf_back
                      "picard_calls", "rho1_backward_calls", "rho2_backward_calls", "degen_symeig_backward_calls",
                      "force_dirs_compared", "hessian_entries_compared", "rho_hook_checked"]
 CASE_TIMEOUT = 900.0
-BUDGET_S = {"quick": 200, "thorough": 1700}
+import os as _os
+
+BUDGET_S = {"quick": float(_os.environ.get("VERIF_C07_BUDGET", 200)), "thorough": float(_os.environ.get("VERIF_C07_BUDGET", 1700))}
 MIN_NONTRIVIAL = 4
 
 TOL_G = 1e-5          # |g_AD - g_FD| <= TOL_G * max(1, |g_FD|)  (+ LAG_SB2 for density outputs of the unrolled mode)
@@ -66,6 +69,7 @@ TOL_H_REL = 2e-5      # * max|H|
 TOL_FREQ = 1e-3       # relative, modes above 300 cm-1
 TOL_HOOK = 1e-4       # relative, derivative of additive-term forward
 EPS = 1e-11
+FD_STEPS = (1e-3, 5e-4, 2.5e-4)   # relative to |theta| per atom
 MIN_SPACING = 0.15    # eV; below this the 5th derivative of an orbital energy makes the Richardson difference itself
                       # inaccurate (measured: spacing 0.053 eV -> FD error 3e-6, identical for every backward mode)
 CONVS = [[0, 0.3], [1], [2]]
@@ -119,7 +123,7 @@ def _configs(tier, g, rot):
 
 def gen_cases(tier, seed):
     g = gen.rng("C07", tier)
-    cases = []
+    cases, head = [], []
     if tier == "quick":
         plan = {"AM1": ["H2O", "CH2O"], "MNDO": ["NH3", "HCN"], "PM3": ["CH3F", "H2O"], "PM6_SP": ["H2S", "HCl"]}
         nchunk = 3
@@ -129,7 +133,7 @@ def gen_cases(tier, seed):
     # --- second order first (most expensive single cases)
     hess = [("H2O", "AM1", 2)] if tier == "quick" else [("H2O", "AM1", 2), ("NH3", "PM3", 1), ("HCN", "MNDO", 0), ("CH2O", "AM1", 2)]
     for mol, method, ci in hess:
-        cases.append({"kind": "hessian", "mol": mol, "method": method, "conv": ci,
+        head.append({"kind": "hessian", "mol": mol, "method": method, "conv": ci,
                       "geom_seed": int(g.integers(0, 2**31))})
     # --- first order in parameters
     rot = 0
@@ -156,9 +160,9 @@ def gen_cases(tier, seed):
             [("H2O", "AM1", 0, 2), ("HCN", "PM3", 1, 1), ("NH3", "MNDO", 2, 0), ("CH2O", "AM1", 1, 2),
              ("HCl", "PM6_SP", 0, 2), ("CH3F", "PM3", 2, 2), ("H2S", "MNDO", 0, 1), ("LiH", "MNDO", 1, 2)]
     for mol, method, sb, ci in fplan:
-        cases.append({"kind": "force", "mol": mol, "method": method, "sb": sb, "conv": ci, "kappa": 0.05,
+        head.append({"kind": "force", "mol": mol, "method": method, "sb": sb, "conv": ci, "kappa": 0.05,
                       "geom_seed": int(g.integers(0, 2**31)), "dir_seed": int(g.integers(0, 2**31))})
-    return cases
+    return head + cases
 
 
 # =========================================================================================
@@ -582,7 +586,7 @@ def _run_param(case):
     for n in names:
         ests = []
         try:
-            for h in (1e-3, 5e-4):
+            for h in FD_STEPS:
                 tp = {k: base[k].clone() for k in names}
                 tm = {k: base[k].clone() for k in names}
                 tp[n] = base[n] + h * vdir[n]
@@ -595,9 +599,13 @@ def _run_param(case):
             continue
         fd[n] = {}
         for k in ests[0]:
-            r = (4 * ests[1][k] - ests[0][k]) / 3
-            smooth = abs(ests[1][k] - ests[0][k]) <= 2e-3 * max(1.0, abs(r))
-            fd[n][k] = (r, smooth)
+            # two Richardson estimates from three nested steps; the returned outputs are not perfectly smooth in the
+            # parameters (measured: jumps of ~6e-7 eV in Etot as a function of zeta_s, i.e. 1e-4 in a difference
+            # quotient), so a difference is only used as an oracle when both estimates agree to a fifth of the bound
+            r1 = (4 * ests[1][k] - ests[0][k]) / 3
+            r2 = (4 * ests[2][k] - ests[1][k]) / 3
+            smooth = abs(r2 - r1) <= 0.2 * TOL_G * max(1.0, abs(r2))
+            fd[n][k] = (r2, smooth)
 
     # ---------------- AD under every configuration -----------------------------------------------
     viol, margins, cells = [], {}, []
